@@ -26,10 +26,17 @@ BOUNDS = ('all argument values in the documented domain (non-NaN for min/max/cla
 OUTSIDE = ('magnitude of the rounding difference of multi-term expressions (only rounding-erased equality and bit-precise equality of the discontinuous decisions are decided); lowp reciprocal/rsqrt accuracy is '
            'decided on rounding-erased terms under the Intel SDM contract (|rel. error| <= 1.5*2^-12, positive normal argument), not for the final rounding; AVX-512 / NEON; NaN payloads; '
            'GLM_FORCE_QUAT_DATA_WXYZ x SIMD: quaternion operations at SSE2 and AVX2+FMA in quick, every level in thorough; aligned_lowp vec3 and aligned_mediump vec3 instances: lowp vec3 in the thorough tier only, mediump vec3 not instantiated (same templates as highp); '
-           'kernels of glm/simd/*.h that no glm operation calls are compared with the operation they are named after as optional (non-mandatory) obligations')
+           'lowp operations that merely contain a division or square root (mod, smoothstep, normalize ... on aligned_lowp) are compared with rcpps/rsqrtps read as the exact 1/x, 1/sqrt x (the 2^-11 bound is decided for the '
+           'operations that ARE the approximation: lowp operator/ and sqrt); branch decisions of min/max/clamp-like selections inside multi-term expressions are not compared as decisions (continuous; covered by the erased equality); '
+           'kernels of glm/simd/*.h that no glm operation calls: sign, mix, add/sub/mul/div, swizzle, vec4_dot, mat4_mul, mat4_mul_vec4, vec4_mul_mat4, mat4_add/sub, determinant_highp/_lowp (thorough) are mandatory; '
+           'glm_vec4_roundEven, glm_vec4_clamp, glm_vec4_step, glm_vec4_nan/_inf differ from the operation they are named after and are attempted as optional obligations only (recorded as kernel-differs, no VIOLATION: no glm operation returns their result); '
+           'dead specialisations (compute_vec_*<..., IsInt = true, ...>: is_int<int>::value is ~0, never true) cannot be observed')
 ASSUMPTIONS = ['x86 intrinsic semantics per Intel SDM as modelled in engine/models.py:x86', 'libm transcendentals are shared uninterpreted functions',
                'the LLVM IR of a wrapper determines its behaviour: two ISA builds with textually identical IR for a wrapper (attributes and metadata stripped) share one verdict']
 
+TRUSTED = ['props/c03.py: term canonicalisation by exact IEEE identities (commutativity of fp.add/fp.mul/fp.eq, a > b as b < a, x ^ signbit as -x), the rational-function normal form used for rounding-erased equality '
+           '(exact rational arithmetic; equal cross-multiplied polynomials), the structural-congruence prover (every lemma decided by z3; common subterms generalised to fresh constants; zero-sign case analysis per operator) '
+           'and the sharing of verdicts between ISA builds whose LLVM IR for a wrapper (including referenced globals, callees and named types) is textually identical']
 INC = ['glm/glm.hpp', 'glm/gtc/quaternion.hpp', 'glm/gtc/matrix_inverse.hpp']
 P = Unit('c03pure', includes=INC, defines=['GLM_FORCE_PURE', 'QQ=glm::packed_highp', 'QL=glm::packed_lowp', 'QM=glm::packed_mediump'])
 SPEC = {}      # fname -> dict(cls, pre, dec, tier, opt, weight)
@@ -155,7 +162,7 @@ NATIVE = False
 WXYZ_QUICK = ('sse2', 'avx2fma')
 def wxyz_isas(tier): return WXYZ_QUICK if tier == 'quick' else tuple(ISA)
 def prebuild_native(us):
-    """thorough: every unit is also built natively and each symbolic term is compared with native execution on sampled inputs (validates the x86 intrinsic models).  g++ rejects the AVX2 units
+    """every unit is also built natively and each symbolic term is compared with native execution on sampled inputs (validates the x86 intrinsic models).  g++ rejects the AVX2 units
     (compute_fma<4, double> calls _mm256_fmadd_pd without -mfma when the compiler is not clang - a glm build defect outside this property): those are built with clang++-14 instead."""
     from concurrent.futures import ThreadPoolExecutor
     def one(u):
@@ -647,7 +654,7 @@ class Pair:
             if r == 'unsat': return ok(used, dt)
             if r == 'unknown' and not getattr(s, 'prefer_cong', False) and cong(): s.prefer_cong = True; return True
         if s.sp['opt']:       # kernel that no glm operation reaches: a difference is recorded (optional obligation), not reported as a violation of the property
-            r, m, dt, used = S.query(list(hy) + [z3.Not(goal)], min(timeout, 20), 'z3', s.allvars)
+            r, m, dt, used = S.query(list(hy) + [z3.Not(goal)], min(timeout, 8), 'z3', s.allvars)
             rec = S.rec(name=name, kind=kind, functions=s.fnlist, bounds=b2, solver=used, result=r, time_s=round(dt, 3), mandatory=False, status='discharged' if r == 'unsat' else ('kernel-differs' if r == 'sat' else 'inconclusive'))
             if r == 'sat':
                 try: rec['replay'], rec['replay_info'] = rp(m)
@@ -663,11 +670,11 @@ def check_pair(S, ua, ub, fn, tag, isas):
         S.rec(name='c03.%s.%s' % (tag, fn), kind='encode', result='unsupported', status='not-encoded', note=str(e)[:300], mandatory=mand, functions=[fn])
         if mand: S.inconclusive.append('c03.%s.%s [not encoded: %s]' % (tag, fn, str(e)[:200]))
         return
-    if not S.quick and cpu_has(isas[0]):      # translator / intrinsic-model validation: the symbolic terms of both builds against native execution on sampled inputs
+    if cpu_has(isas[0]):      # translator / intrinsic-model validation: the symbolic terms of both builds against native execution on sampled inputs
         try:
             hv = z3.And(*pr.hyps) if pr.hyps else None
             for r_ in (pr.ra, pr.rb):
-                ncmp, bad = validate_translation(r_, S.rnd, 3, pre=hv); S.validated += ncmp
+                ncmp, bad = validate_translation(r_, S.rnd, 2 if S.quick else 4, pre=hv); S.validated += ncmp
                 if bad: S.engine_errors.append('%s: symbolic term disagrees with native execution: %s' % (pr.nm, json.dumps(bad[0])))
         except Exception as e:
             S.rec(name=pr.nm + '.validate', kind='validate', result='error', status='skipped', note=str(e)[:300], mandatory=False)
@@ -823,7 +830,7 @@ def table(tier):
 WEIGHT = {'face3_f': 2.5, 'refr3_f': 1.5, 'mod4_f': 3, 'fract4_f': 3, 'floor4_f': 2.5, 'ceil4_f': 2.5, 'k_roundEven': 2, 'face4_f': 1, 'round4_f': 1.5, 'minv4': 1, 'mops4': 1, 'mmul4': 1}
 def jobs(tier):
     """one task = one wrapper x one group of ISA builds with identical IR; tasks are packed into jobs of similar estimated cost"""
-    if tier != 'quick': prebuild_native(units(tier))
+    prebuild_native(units(tier))
     tasks = []
     for fn in table(tier):
         for wx in ((False, True) if fn in QNAMES else (False,)):
@@ -842,6 +849,8 @@ def jobs(tier):
     for k, ts in fam.items():
         b = min(bins, key=lambda b_: b_[0]); b[0] += max(w for w, t in ts) * 1.5; b[1] += [t for w, t in ts]
     tasks = [(w, t) for w, t in tasks if id(t) not in famtasks]
+    for w, t in sorted(tasks, key=lambda x: -x[0]):
+        b = min(bins, key=lambda b_: b_[0]); b[0] += w; b[1].append(t)
     return [('g%02d.%s' % (gi, ','.join(sorted({t[0] for t in b[1]}))[:70]), job_tasks(b[1])) for gi, b in enumerate(bins) if b[1]]       # names must be regex-safe (--only / --replay)
 JOB_CAP = {'quick': 600, 'thorough': 3600}
 def PROGRAMS(recs): return len({tuple(x['name'].split('.')[1:3]) for x in recs if x.get('kind') in ('diff', 'decision', 'lowp-accuracy')})
